@@ -60,7 +60,7 @@ HTML7 = [['<x-note>', 'text *here*'], ['<my-tag attr="v">'], ['</x-note>'], ['<a
 PROFILES = {
     # switches: see generate()
     'full': dict(rich_links=True),
-    'roundtrip': dict(entities=False, indent4_cont=False, empty_items=False),
+    'roundtrip': dict(entities=False, indent4_cont=False, empty_items=False, rich_links='plain'),
     'normalform': dict(entities=False, indent4_cont=False, canonical=True, empty_items=False, blank_start_items=False),
     'prose': dict(entities=False, indent4_cont=False, prose=True, empty_items=False),
     'outline': dict(outline=True),
@@ -205,12 +205,20 @@ def gen_link(rng, opt, depth, image, in_strike=False, breaks=False):
     if title and ((tq == '"' and '"' in title) or (tq == "'" and "'" in title) or (tq == '(' and ('(' in title or ')' in title))):
         tq = next(q for q in '"\'(' if not ((q == '"' and '"' in title) or (q == "'" and "'" in title) or (q == '(' and '(' in title)))
     if opt.rich_links and rng.random() < 0.3:
+        t2, d2, a2 = title, dest, angle
         if rng.random() < 0.6:
-            title = rng.choice(RICH_TITLES)
+            t2 = rng.choice(RICH_TITLES)
         if rng.random() < 0.6:
-            dest, angle = rng.choice(RICH_DESTS), rng.random() < 0.3
-        tq = rng.choice('"\'(')
-        return ('image' if image else 'link', text, dest, title, tq, angle, spell_tail(rng, dest, title, tq, angle, opt.entities))
+            d2, a2 = rng.choice(RICH_DESTS), rng.random() < 0.3
+        q2 = rng.choice('"\'(')
+        if opt.rich_links == 'plain':
+            # round-trip profiles: only values whose spelling needs no escape at all (escapes in destinations and titles
+            # are one of C09's excluded classes)
+            sp = spell_tail(rng, d2, t2, q2, a2, False, p=0.0)
+            if sp == (d2, t2):
+                return ('image' if image else 'link', text, d2, t2, q2, a2, sp)
+        else:
+            return ('image' if image else 'link', text, d2, t2, q2, a2, spell_tail(rng, d2, t2, q2, a2, opt.entities))
     return ('image' if image else 'link', text, dest, title, tq, angle)
 
 
@@ -249,20 +257,20 @@ def balanced(value):
     return d == 0
 
 
-def spell_tail(rng, dest, title, tq, angle, entities):
+def spell_tail(rng, dest, title, tq, angle, entities, p=0.2):
     """(destination spelling, title spelling) for an inline link or a definition (6.3)."""
     if angle:
-        d = spell_value(rng, dest, '<>', entities)
+        d = spell_value(rng, dest, '<>', entities, p)
     else:
         # parentheses: all of them escaped, or (when they balance) none - escaping some changes the balance of the others
         if balanced(dest) and rng.random() < 0.7:
-            d = spell_value(rng, dest, '', entities, never='()')
+            d = spell_value(rng, dest, '', entities, p, never='()')
         else:
-            d = spell_value(rng, dest, '()', entities)
+            d = spell_value(rng, dest, '()', entities, p)
         if d.startswith('<'):
             d = '\\' + d
     close = {'"': '"', "'": "'", '(': '()'}[tq]
-    t = spell_value(rng, title, close, entities)
+    t = spell_value(rng, title, close, entities, p)
     return d, t
 
 
@@ -601,12 +609,14 @@ class Gen:
         nd = Node('refdef', label=label, dest=rng.choice(ANGLE_DESTS) if angle else rng.choice(DESTS), angle=angle, title=title,
                   tq=rng.choice('"\'('), title_nl=rng.random() < 0.15 and not self.opt.canonical)
         if self.opt.rich_links and rng.random() < 0.3:
-            if rng.random() < 0.6:
-                nd.title = rng.choice(RICH_TITLES)
-            if rng.random() < 0.6:
-                nd.dest, nd.angle = rng.choice(RICH_DESTS), rng.random() < 0.3
-            nd.dest_md, nd.title_md = spell_tail(rng, nd.dest, nd.title, nd.tq, nd.angle, self.opt.entities)
-            nd.spelled = True
+            t2 = rng.choice(RICH_TITLES) if rng.random() < 0.6 else nd.title
+            d2, a2 = (rng.choice(RICH_DESTS), rng.random() < 0.3) if rng.random() < 0.6 else (nd.dest, nd.angle)
+            plain = self.opt.rich_links == 'plain'
+            sp = spell_tail(rng, d2, t2, nd.tq, a2, self.opt.entities and not plain, p=0.0 if plain else 0.2)
+            if not plain or sp == (d2, t2):
+                nd.title, nd.dest, nd.angle = t2, d2, a2
+                nd.dest_md, nd.title_md = sp
+                nd.spelled = True
         return nd
 
     def quote(self, depth, in_quote):
@@ -679,6 +689,15 @@ def can_follow(prev, nxt, opt=None):
         # 5.1 / 5.2: a line without the container's prefix / indentation ends the container unless it is a lazy
         # continuation of a paragraph that is still open there
         leaf = deep_last(prev)
+        if pk == 'quote' and nk != 'quote' and getattr(prev, 'blank_last', False) and opt is not None and not opt.canonical \
+                and not (prev.blocks and prev.blocks[-1].kind == 'fence' and not prev.blocks[-1].closed):
+            # the quote is written with a final empty '>' line: nothing is open that a following line could continue,
+            # and no blank line is needed to end the quote (5.1)
+            if nk == 'hr':
+                return nxt.spell[0] in '*_'
+            if nk == 'list':
+                return False          # (kept apart: R5 and the tight/loose bookkeeping of the emitter)
+            return True
         if leaf is None or nk in ('quote', 'list', 'icode', 'refdef'):
             return False
         if leaf.kind == 'para':
